@@ -82,6 +82,13 @@ def generate(ctx):
                 ren = {("zz" + n if j == 0 else n): t for j, (n, t) in enumerate(fields.items())}
                 assert d != NestedDtype.from_fields(ren), "equal to a dtype with another field name"
                 assert d != pd.ArrowDtype(d.pyarrow_dtype) and d != "something"
+                # one field more / one field less (the field list of one is the beginning of the other's), in both directions,
+                # also against the name string
+                longer = NestedDtype.from_fields(dict(fields, zz_more=pa.float64()))
+                assert d != longer and longer != d and d != longer.name and longer != d.name, "equal to a dtype with one more field"
+                if k > 1:
+                    shorter = NestedDtype.from_fields(dict(list(fields.items())[:-1]))
+                    assert d != shorter and shorter != d and d != shorter.name, "equal to a dtype with one field less"
                 ad = d.to_pandas_arrow_dtype()
                 assert isinstance(ad, pd.ArrowDtype) and ad.pyarrow_dtype == d.pyarrow_dtype
                 assert NestedDtype.from_pandas_arrow_dtype(ad) == d
@@ -215,7 +222,7 @@ def generate(ctx):
                 for _ in range(rng.randint(1, 4)):
                     ty = rng.choice(list(gen.TYPES))
                     nm = rng.choice(["new1", "new2"] + [n for n, _ in inpc["schema"]])
-                    how = rng.choice(["with_flat_field", "with_list_field", "without_field", "frame_setitem", "nest_getitem", "query", "setitem_el", "query", "setitem_el"])
+                    how = rng.choice(["with_flat_field", "with_list_field", "without_field", "frame_setitem", "frame_retype", "frame_retype", "nest_getitem", "query", "setitem_el", "query", "setitem_el"])
                     cur = nf["n"]
                     names_now = list(cur.nest.fields)
                     if how == "with_flat_field":
@@ -227,6 +234,14 @@ def generate(ctx):
                     elif how == "frame_setitem":
                         nf[f"n.{nm}"] = pa.array(ao.values_of_type(rng, ty, sum(lens)), type=gen.TYPES[ty])
                         cur = nf["n"]
+                    elif how == "frame_retype":
+                        # an EXISTING field replaced through the frame by values of another element type
+                        nm = rng.choice(names_now)
+                        now_t = str(cur.array.chunked_array.type.field(nm).type.value_type)
+                        ty = rng.choice([t_ for t_ in gen.TYPES if str(gen.TYPES[t_]) != now_t])
+                        nf[f"n.{nm}"] = pa.array(ao.values_of_type(rng, ty, sum(lens)), type=gen.TYPES[ty])
+                        cur = nf["n"]
+                        assert str(cur.array.chunked_array.type.field(nm).type.value_type) == str(gen.TYPES[ty]), "the new element type was not stored"
                     elif how == "nest_getitem":
                         cur = cur.nest[[rng.choice(names_now)]]
                     elif how in ("query", "setitem_el"):
